@@ -27,7 +27,7 @@ func (c20) Cases(tier string) int {
 }
 
 func (c20) Rule() string {
-	return "federations with 35% multi-homed fields and priorities (absent, partial, total, naming unknown services; the priorities option given to gateway.New after or before the planner option) x queries writing fields plain, inside inline fragments (typed/untyped/nested) and inside named fragments; planning only; every field occurrence of every plan step is checked against the Lean chooser evaluated on the routing table captured through WithPlanner (parent = the location of the enclosing object's step); non-trivial = at least one multi-homed field decided; distinct = distinct (federation, priorities, query)"
+	return "L2.new-options: 2 random option lists per case through gateway.New against Nw.build (the installed planner is told the last priority list wherever its option stands); federations with 35% multi-homed fields and priorities (absent, partial, total, naming unknown services; the priorities option given to gateway.New after or before the planner option) x queries writing fields plain, inside inline fragments (typed/untyped/nested) and inside named fragments; planning only; every field occurrence of every plan step is checked against the Lean chooser evaluated on the routing table captured through WithPlanner (parent = the location of the enclosing object's step); non-trivial = at least one multi-homed field decided; distinct = distinct (federation, priorities, query)"
 }
 
 type placedField struct {
@@ -122,6 +122,14 @@ func (c20) Run(c *Ctx, i int) CaseResult {
 		id = fmt.Sprintf("gen:%d", i)
 	}
 	res := CaseResult{ID: id, Key: fmt.Sprint(in.Spec.SDLs, in.Spec.Priorities, in.Query)}
+	// L2: the priorities reach the installed planner whatever the order of the options (New against Nw.build)
+	for k := 0; k < 2; k++ {
+		if nf := NewOptsCorr(c, c.Rand(i*10+k+64000000)); len(nf) > 0 {
+			res.Nontrivial = true
+			res.Fails = nf
+			return res
+		}
+	}
 	fc, err := RunFed(c, in, 5*1e9)
 	if err != nil {
 		res.Fails = append(res.Fails, Failure{Channel: "harness", Classifier: "harness-error", What: err.Error(), Input: in})
